@@ -24,7 +24,8 @@ def run(tier):
         total = sum(lens)
         total2 = sum(len(p[1]) // 2 for p in second) if second else 0
         ptot = sum(len(p[1]) // 2 for p in prior_fail[1]) if prior_fail else 0
-        cmds = ["new 0 int" if internal else "new 0 ext %d H 0xcc" % (start + total + total2 + ptot + 64)]
+        # (caller buffers at every alignment of their address: heap blocks, or ending at a page end)
+        cmds = ["new 0 int" if internal else "new 0 ext %d %s 0xcc" % (start + total + total2 + ptot + 64 + (len(cases) % 61), "H" if len(cases) % 3 else "R")]
         if prior_fail:
             # an earlier counting call that FAILS after some of its instructions crossed boundaries: its partial count must not
             # reach the next call ("the count is that of the current call only")
